@@ -40,6 +40,9 @@ pub struct Registry {
     /// declarations outside the legal histories (a field name removed and re-added): they cannot read their own data, so
     /// they are no subjects of the round-trip checks — but what they make of hostile input is still judged (C05, C06)
     pub hostile_only: Vec<Box<dyn Subject>>,
+    /// types whose hostile inputs can take the whole process down (an allocation failure is an abort, not an unwind):
+    /// only ever decoded by the one-input-per-process probes of C05
+    pub probe_only: Vec<Box<dyn Subject>>,
 }
 
 /// one evolution history and the subjects of its versions, in several embeddings
@@ -57,7 +60,7 @@ pub struct FamilyEntry {
 
 impl Registry {
     pub fn new() -> Self {
-        Registry { subjects: Vec::new(), histories: Vec::new(), families: Vec::new(), tags: Default::default(), tolerant: Vec::new(), hostile_only: Vec::new() }
+        Registry { subjects: Vec::new(), histories: Vec::new(), families: Vec::new(), tags: Default::default(), tolerant: Vec::new(), hostile_only: Vec::new(), probe_only: Vec::new() }
     }
 
     pub fn add<T: Model + desert::BinarySerializer + desert::BinaryDeserializer>(&mut self, id: &str) {
@@ -73,6 +76,10 @@ impl Registry {
         self.hostile_only.push(Box::new(S::<T>::new(id)));
     }
 
+    pub fn add_probe_only<T: Model + desert::BinarySerializer + desert::BinaryDeserializer>(&mut self, id: &str) {
+        self.probe_only.push(Box::new(S::<T>::new(id)));
+    }
+
     pub fn add_tolerant<T: Model + desert::BinarySerializer + desert::BinaryDeserializer>(&mut self, writer: &str, id: &str) {
         self.tolerant.push((writer.to_string(), Box::new(S::<T>::new(id))));
     }
@@ -82,6 +89,7 @@ impl Registry {
             .iter()
             .find(|s| s.id() == id)
             .or_else(|| self.hostile_only.iter().find(|s| s.id() == id))
+            .or_else(|| self.probe_only.iter().find(|s| s.id() == id))
             .or_else(|| self.tolerant.iter().map(|(_, s)| s).find(|s| s.id() == id))
             .map(|b| b.as_ref())
     }
